@@ -98,6 +98,10 @@ def _check_meta(ctx, label, R, inputs, info):
             ctx.require('has-contributor[%s]' % label, False, lambda: dict(info(), name=p.name))
             continue
         i2 = lambda: dict(info(), name=p.name)
+        if label == 'merge' and p.default is p.empty:
+            # "its default is their common default value, or None when they differ": when every contributor is
+            # optional the merged parameter has a default (for embed/forwards the outer-default rule applies instead)
+            ctx.require('optional-when-all-optional[merge]', not all(c.default is not c.empty for c in cs), i2)
         if p.default is not p.empty:
             ctx.require('optional-only-if-all-optional[%s]' % label,
                         all(c.default is not c.empty for c in cs), i2)
